@@ -14,6 +14,7 @@ import Mfi.Lemmas.ResL
 import Mfi.Lemmas.SkelL
 import Mfi.Props.C04
 import Mfi.Lemmas.ConstL
+import Mfi.Lemmas.WorldL
 
 namespace Mfi.Props.C05
 open Mfi Mfi.Fx Mfi.Risk Mfi.Gen Mfi.Props.C09 Mfi.Props.C04
@@ -294,5 +295,115 @@ example : ∃ r, liquidationAmounts 1000000 (10 * ONE) (2 * ONE) 6 6 = .ok r ∧
     constants on every run; the model computes its own powers of ten and is diffed against the real functions across
     ALL 24 decimals) -/
 theorem scaling_table_is_powers_of_ten : Mfi.Gen.EXP_10_I80F48 = Mfi.Fx.POW10FX := Mfi.ConstL.exp10_table_exact
+
+section whole_instructions
+open Mfi Mfi.World Mfi.Gen Mfi.Gen.Acc Mfi.Risk
+
+/-! ### the whole instruction (Mfi/Model/World.lean: `World.liquidate`) -/
+
+theorem stateOf_ok {op : Int} {k : Gate.Kind} (h : stateOf op k = .ok ()) :
+    ∃ s, Gate.OpState.ofInt op = some s ∧ Gate.validateBankState s k = none := by
+  unfold stateOf at h
+  split at h
+  · cases h
+  · rename_i s hs
+    split at h
+    · rename_i hv; exact ⟨s, hs, hv⟩
+    · cases h
+
+/-- **world_liquidate_spec**: `lending_account_liquidate` goes through only
+    * in a group that is not paused; both banks and both accounts belong to it; the debt bank is one of the program's own;
+      neither account is in receivership; the signer is entitled to act for the LIQUIDATOR (authority, or group admin of a
+      frozen account — no receivership path);
+    * for a positive amount, two different banks, neither paused nor killed;
+    * when the engine's pre-condition holds on the liquidatee's portfolio with both banks ACCRUED — so maintenance health
+      was negative and the position in the debt bank is a pure debt (`liquidation_window`);
+    * at a positive low-biased collateral price and a positive high-biased debt price;
+    * when, after the four balance moves, the engine's post-condition holds on the liquidatee's portfolio AS LEFT (health
+      strictly better, still not positive, the debt neither flipped nor exhausted);
+    * and the liquidator's portfolio as left passes the initial-margin check (unless it is inside a flash loan, whose end
+      enforces it). -/
+theorem world_liquidate_spec {c : LiqCtx} {amount : Int} {o : LiqOutW} (h : World.liquidate c amount = .ok o) :
+    (c.g.paused = false ∧ c.ab.group = c.g.key ∧ c.lb.group = c.g.key ∧ c.lq.group = c.g.key ∧ c.le.group = c.g.key ∧
+      tagIs .marginfi c.lb.books.assetTag = true ∧
+      hasFlag c.lq.flags ACCOUNT_IN_RECEIVERSHIP = false ∧ hasFlag c.le.flags ACCOUNT_IN_RECEIVERSHIP = false ∧
+      Auth.notFrozenForAuthority (acctView c.lq.authority c.lq.flags) c.signer = true ∧
+      Auth.isSignerAuthorized (acctView c.lq.authority c.lq.flags) c.g.admin c.signer false = true) ∧
+    0 < amount ∧ c.ab.key ≠ c.lb.key ∧
+    (∃ s, Gate.OpState.ofInt c.ab.opState = some s ∧ Gate.validateBankState s .failsInPausedState = none) ∧
+    (∃ s, Gate.OpState.ofInt c.lb.opState = some s ∧ Gate.validateBankState s .failsInPausedState = none) ∧
+    hasFlag c.le.flags ACCOUNT_IN_FLASHLOAN = false ∧
+    ∃ a l ps pre ap lp ps' lp' post,
+      Bank.accrueInterest c.ab.books c.ab.ir c.now = .ok a ∧ Bank.accrueInterest c.lb.books c.lb.ir c.now = .ok l ∧
+      portfolio2 c.risk (Account.sortBalances c.le.slots) c.ab.key a c.lb.key l = .ok ps ∧
+      preLiquidationFor ps (posOf ps (Account.sortBalances c.le.slots) c.lb.key) = .ok pre ∧
+      feedPrice c.risk c.ab.key .low = .ok ap ∧ 0 < ap ∧ feedPrice c.risk c.lb.key .high = .ok lp ∧ 0 < lp ∧
+      portfolio2 c.risk o.leSlots c.ab.key o.assetBooks c.lb.key o.liabBooks = .ok ps' ∧
+      postLiquidation ps' lp' pre = .ok post ∧
+      pre < 0 ∧ pre < post ∧ post ≤ 0 ∧
+      (hasFlag c.lq.flags ACCOUNT_IN_FLASHLOAN = true ∨
+        ∃ qs, portfolio2 c.risk o.lqSlots c.ab.key o.assetBooks c.lb.key o.liabBooks = .ok qs ∧ checkInitHealth qs = .ok ()) := by
+  unfold World.liquidate at h
+  obtain ⟨_, hc, h⟩ := Res.bind_ok h
+  obtain ⟨_, hamt, h⟩ := Res.bind_ok h
+  obtain ⟨_, hdiff, h⟩ := Res.bind_ok h
+  obtain ⟨_, _, h⟩ := Res.bind_ok h
+  obtain ⟨_, hsa, h⟩ := Res.bind_ok h
+  obtain ⟨_, hsl, h⟩ := Res.bind_ok h
+  obtain ⟨_, _, h⟩ := Res.bind_ok h
+  obtain ⟨_, _, h⟩ := Res.bind_ok h
+  obtain ⟨_, _, h⟩ := Res.bind_ok h
+  obtain ⟨a, ha, h⟩ := Res.bind_ok h
+  obtain ⟨l, hl, h⟩ := Res.bind_ok h
+  obtain ⟨_, hfl, h⟩ := Res.bind_ok h
+  obtain ⟨ps, hps, h⟩ := Res.bind_ok h
+  obtain ⟨pre, hpre, h⟩ := Res.bind_ok h
+  obtain ⟨ap, hap, h⟩ := Res.bind_ok h
+  obtain ⟨_, hap0, h⟩ := Res.bind_ok h
+  obtain ⟨lp, hlp, h⟩ := Res.bind_ok h
+  obtain ⟨_, hlp0, h⟩ := Res.bind_ok h
+  obtain ⟨⟨aLq, aFin, aFee⟩, _, h⟩ := Res.bind_ok h
+  dsimp only at h
+  obtain ⟨⟨lq1, i1⟩, _, h⟩ := Res.bind_ok h
+  dsimp only at h
+  obtain ⟨x1, _, h⟩ := Res.bind_ok h
+  obtain ⟨r1, _, h⟩ := Res.bind_ok h
+  obtain ⟨i2, _, h⟩ := Res.bind_ok h
+  obtain ⟨x2, _, h⟩ := Res.bind_ok h
+  obtain ⟨preA, _, h⟩ := Res.bind_ok h
+  obtain ⟨_, _, h⟩ := Res.bind_ok h
+  obtain ⟨r2, _, h⟩ := Res.bind_ok h
+  obtain ⟨⟨lq3, i3⟩, _, h⟩ := Res.bind_ok h
+  dsimp only at h
+  obtain ⟨x3, _, h⟩ := Res.bind_ok h
+  obtain ⟨r3, _, h⟩ := Res.bind_ok h
+  obtain ⟨fw, _, h⟩ := Res.bind_ok h
+  obtain ⟨i4, _, h⟩ := Res.bind_ok h
+  obtain ⟨x4, _, h⟩ := Res.bind_ok h
+  obtain ⟨r4, _, h⟩ := Res.bind_ok h
+  obtain ⟨f, _, h⟩ := Res.bind_ok h
+  obtain ⟨ps', hps', h⟩ := Res.bind_ok h
+  obtain ⟨lp', _, h⟩ := Res.bind_ok h
+  obtain ⟨post, hpost, h⟩ := Res.bind_ok h
+  obtain ⟨_, hq, h⟩ := Res.bind_ok h
+  injection h with h
+  subst h
+  have hc' := runChecks_ok hc
+  simp only [checks, List.forall_mem_cons, List.not_mem_nil, false_imp_iff, implies_true, and_true] at hc'
+  simp [evalChk, LiqCtx.env, flBit, flagsOf, AccV.key] at hc'
+  obtain ⟨c1, c2, c3, c4, c5, c6, c7, c8, c9, c10⟩ := hc'
+  have hw := liquidation_window hpre hpost
+  refine ⟨⟨c1, c2, c3, c5, c9, c4, c6, c10, c7, c8⟩, by simpa using Bank.chk_ok hamt, by simpa using Bank.chk_ok hdiff,
+    stateOf_ok hsa, stateOf_ok hsl, by simpa using Bank.chk_ok hfl,
+    a, l, ps, pre, ap, lp, ps', lp', post, ha, hl, hps, hpre, hap, by simpa using Bank.chk_ok hap0, hlp,
+    by simpa using Bank.chk_ok hlp0, hps', hpost, hw.1, hw.2.1, hw.2.2.1, ?_⟩
+  by_cases hflq : hasFlag c.lq.flags ACCOUNT_IN_FLASHLOAN = true
+  · exact Or.inl hflq
+  · right
+    rw [if_neg hflq] at hq
+    obtain ⟨qs, hqs, hq⟩ := Res.bind_ok hq
+    exact ⟨qs, hqs, hq⟩
+
+end whole_instructions
 
 end Mfi.Props.C05
